@@ -71,6 +71,7 @@ func drawPairCfg(t *rapid.T, g pairGenOpts) sim.PairCfg {
 		StrAddr:     rapid.IntRange(0, 3).Draw(t, "straddr") == 0,
 		EntropySeed: rapid.Uint64Range(1, 1<<62).Draw(t, "entropy"),
 		StreamID:    [2]uint32{rapid.Uint32().Draw(t, "sidA"), rapid.Uint32().Draw(t, "sidB")},
+		ClockOff:    sim.DrawClockOff(t),
 	}
 	cfg.Key = rapid.SliceOfN(rapid.Byte(), wire.KeyLen(cfg.Cipher), wire.KeyLen(cfg.Cipher)).Draw(t, "key")
 	fecOn := g.FECMode == 1 || (g.FECMode == 0 && rapid.IntRange(0, 9).Draw(t, "fecon") < 6)
